@@ -785,4 +785,69 @@ pub fn run(ctx: &Ctx, prop: Prop, pool: &[PoolKey], n_random: u64) {
 		});
 	}
 	let _ = build;
+	if prop == Prop::C08 && ctx.replay.as_ref().map_or(true, |r| r.workload == "crl-imported-issuer") {
+		imported_issuers(ctx, pool);
+	}
+}
+
+/// C08, refusal rule with issuers that were *imported*: a foreign CA certificate (extensions in any
+/// order) whose key usages lack cRLSign must not be able to sign a CRL after `from_ca_cert_der`.
+fn imported_issuers(ctx: &Ctx, pool: &[PoolKey]) {
+	let locals: Vec<&PoolKey> = pool.iter().filter(|k| !k.is_remote()).collect();
+	if locals.is_empty() {
+		return;
+	}
+	par_for(ctx.scale(300, 6_000), ctx.threads, |i| {
+		let case = CaseId::new("crl-imported-issuer", ctx.seed, i);
+		if let Some(r) = &ctx.replay {
+			if r.index != i {
+				return;
+			}
+		}
+		let mut rng = case.rng();
+		let key = locals[(i % locals.len() as u64) as usize];
+		// three quarters with a plain subject (so that the import is not refused for an unrelated reason)
+		let forced: &[(&str, openssl::asn1::Asn1Type, &str)] =
+			if i % 4 != 0 { &[("O", openssl::asn1::Asn1Type::UTF8STRING, "verif"), ("CN", openssl::asn1::Asn1Type::UTF8STRING, "imported issuer")] } else { &[] };
+		let ca = match crate::mon::imports::make_ossl_ca_with(&mut rng, key, forced) {
+			Ok(c) => c,
+			Err(_) => return,
+		};
+		let text = format!("key={} foreign CA: ku={:#b} ski={} subject={:?} der={}", key.label, ca.ku, ca.ski, ca.subject, hex(&ca.der));
+		let der = pki_types::CertificateDer::from(ca.der.clone());
+		let r = crate::guard(|| -> Result<Option<bool>, String> {
+			let imp = match rcgen::CertificateParams::from_ca_cert_der(&der) {
+				Ok(p) => p,
+				Err(_) => return Ok(None),
+			};
+			let issuer = imp.self_signed(&key.kp).map_err(|e| format!("re-creating the imported CA: {}", e))?;
+			let crl = rcgen::CertificateRevocationListParams {
+				this_update: TimeSpec::utc(1_700_000_000).to_time().unwrap(),
+				next_update: TimeSpec::utc(1_700_086_400).to_time().unwrap(),
+				crl_number: rcgen::SerialNumber::from(1u64),
+				issuing_distribution_point: None,
+				revoked_certs: vec![],
+				key_identifier_method: rcgen::KeyIdMethod::Sha256,
+			};
+			Ok(Some(crl.signed_by(&issuer, &key.kp).is_ok()))
+		});
+		ctx.count("eval:crl:imported-issuer");
+		let lacks_crl_sign = ca.ku != 0 && ca.ku & 0b0100_0000 == 0;
+		match r {
+			Err(p) => ctx.violation("c08:crl-panic", &case, &text, &p),
+			Ok(Err(e)) => ctx.violation("c08:imported-issuer-setup", &case, &text, &e),
+			Ok(Ok(None)) => ctx.count("outcome:imported-issuer:import-refused"),
+			Ok(Ok(Some(signed))) => {
+				if signed && lacks_crl_sign {
+					ctx.violation("c08:not-refused:crlsign", &case, &text, "the imported issuer certificate declares key usages without cRLSign, yet a CRL was produced");
+				} else if !signed && !lacks_crl_sign {
+					ctx.violation("c08:crl-refused", &case, &text, "valid CRL parameters were refused under an imported issuer");
+				} else if signed {
+					ctx.count("outcome:imported-issuer:signed");
+				} else {
+					ctx.count("outcome:imported-issuer:refused-no-crlsign");
+				}
+			},
+		}
+	});
 }
